@@ -6,7 +6,7 @@ import warnings
 
 from hypothesis import strategies as st
 
-from vlib import env, drive, colgen, fakes3
+from vlib import env, drive, colgen, fakes3, gen
 from vlib.findings import Collector, h64
 from vlib.step import Failure
 
@@ -110,7 +110,7 @@ def cases(draw):
         perms = [list(p) for p in itertools.permutations(range(n))]
     else:
         perms = [list(range(n)), list(range(n - 1, -1, -1))] + \
-            [list(draw(st.permutations(range(n)))) for _ in range(3)]
+            [list(draw(gen.permutation(range(n)))) for _ in range(3)]
     sources = draw(st.sampled_from([['strings'], ['strings', 'files'], ['strings', 's3'],
                                     ['files', 's3'], ['strings', 'files', 's3']]))
     return {'docs': docs, 'perms': perms, 'sources': sources}
